@@ -129,7 +129,35 @@ pub fn gen_head(max_fields: u32) -> Vec<u8> {
     h
 }
 
+/// First bytes of other protocols that reach an HTTP port in practice. A reader that
+/// special-cases any of them must still end in a documented outcome.
+const FOREIGN_PREFIXES: [&[u8]; 10] = [
+    b"\x16\x03\x01\x02\x00\x01\x00\x01\xfc\x03\x03", // TLS 1.x ClientHello
+    b"\x16\x03\x03\x00\x7a\x01\x00\x00\x76\x03\x03",
+    b"\x16\x03\x00\x00\x2f\x01",
+    b"PRI * HTTP/2.0\r\n\r\nSM\r\n\r\n", // HTTP/2 preface
+    b"SSH-2.0-OpenSSH_9.6\r\n",
+    b"\x05\x01\x00", // SOCKS5
+    b"\x04\x01\x00\x50", // SOCKS4
+    b"\x80\x2e\x01\x00\x02", // SSLv2 hello
+    b"PROXY TCP4 192.0.2.1 192.0.2.2 1 2\r\n", // PROXY protocol v1
+    b"\r\n\r\n\x00\r\nQUIT\n", // PROXY protocol v2
+];
+
 pub fn mutate(h: &mut Vec<u8>) {
+    if gen::ratio(1, 40) {
+        let p = gen::pick(&FOREIGN_PREFIXES);
+        if gen::ratio(1, 2) {
+            let mut v = p.to_vec();
+            v.extend_from_slice(h);
+            *h = v;
+        } else {
+            *h = p.to_vec();
+            h.extend_from_slice(b"\r\n\r\n");
+        }
+        gen::count("probe.foreign_protocol_prefix");
+        return;
+    }
     let n = gen::below(4);
     let special = [b'\r', b'\n', b' ', b':', 0u8, 0x80, 0xff, b'\t'];
     for _ in 0..n {
